@@ -724,6 +724,12 @@ def signature(case, step, what):
             return "new-field-differs:formula-terms"
         if "compressed" in sk.get("oom", []) or "featureType" in sk.get("props", {}):
             return "new-field-differs:featureType-or-dsg"
+        sizes = [d[1] for d in step["before"]["dims"]]
+        coord_axes = {c["axes"][0] for c in sk.get("dim", []) if len(c.get("axes", [])) == 1}
+        if any(i in sk.get("daxes", []) and i not in coord_axes and sizes.count(a["size"]) >= 2
+               for i, a in enumerate(sk.get("axes", []))):
+            # C17-fix2-1: the dry run may have put a re-read field on the other dimension of that size
+            return "new-field-differs:bare-axis-next-to-equal-size-dimensions"
         held = set(step["before"]["gatts"])
         if any(k in DESCRIPTION and k not in held for k in sk.get("props", {})):
             return "new-field-differs:description-property-not-held-by-file"
@@ -907,6 +913,8 @@ def run(chk, model_ok):
                 chk.fail("correspondence", sig, what,
                          {"correspondence": "C17.Run." + entry, "input": {"case": case, "step": k},
                           "observed": results[case["id"]]["steps"][k].get("before")})
+        stats["reader-check-waived:data-variable-with-bounds"] = len(
+            lib.coq_bad_indices("C17", REQ, "reader_waived", cov_lits, chunk=100))
         bad = lib.coq_bad_indices("C17", REQ, "check_created", cre_lits, chunk=60)
         ncorr += len(cre_lits)
         stats["created-files-in-model"] = len(cre_lits)
